@@ -184,3 +184,15 @@ claim(
     'from_dataframe passes the index as span and column values by name. Does not decide value fidelity inside pandas.',
     'DESIGN.md 4 C19',
 )
+claim(
+    'C07',
+    'static reader of the Fortran template (declarations + per-subroutine CFG), FFI argument/result agreement, index-base flow, code-table and exception agreement, twin control skeleton',
+    'Decides from the source alone (the template is a string constant; nothing is compiled): variable numbering from 1 in NAMES order; '
+    'positional actuals of the three self.ENGINE calls vs intent(in) dummies (f2py order) and result tuples vs intent(out); every integer '
+    'dummy that flows into an array subscript receives an `e + 1` actual; option/error code tables agree and each code surfaces as the '
+    'exception class the Python engine raises; the control skeleton of Fortran solve_t/solve matches the Python solver after 1-based '
+    'normalisation (reverse index, offset guards and copy, pre-existing check, 1..max_iter, min_iter gate, strict all-abs test, '
+    'exhausted count, early stops); shape of the NAME[idx] rewrite; numeric-literal kinds (K3). Does not decide that the generated '
+    'file compiles, floating-point agreement, line wrapping or f2py marshalling.',
+    'DESIGN.md 4 C07',
+)
